@@ -301,7 +301,50 @@ def hSpeciate : Handler := fun j => do
              cls := s!"species={ip.species.length}", detail := d.getD "",
              props := [("C08", why == "", why, "speciate:" ++ why)] }
 
+/-- `quotaShift`: giveBabiesToTheBest / deltaCoding on a population with synthetic species bookkeeping -/
+def hQuotaShift : Handler := fun j => do
+  let inp ← fld j "in"
+  let out ← fld j "out"
+  let p ← parsePop (← fld inp "pop")
+  let o ← parseEpochOpts (← fld inp "opts")
+  let kind ← fldStr inp "kind"
+  let order ← arrInt (← fld inp "order")
+  let rs ← arrNat (← fld j "rand")
+  let consumed ← fldNat j "consumed"
+  let implErr := optStr out "err"
+  let a ← parsePop (← fld out "pop")
+  let sorted := order.filterMap (fun i => p.species.find? (·.id == i))
+  let total (q : Pop Float) : Int := q.species.foldl (fun acc s => acc + s.expectedOffspring) 0
+  let model : Except Stop (List (Species Float) × Nat) :=
+    if kind == "deltaCoding" then (deltaCoding sorted o).map (fun l => (l, 0))
+    else (giveBabiesToTheBest sorted o rs).map (fun r => (r.1, rs.length - r.2.length))
+  match model, implErr with
+  | .error e, some ie => return { corr := stopStr e == ie, spec := true, cls := kind ++ ":err", nontrivial := false }
+  | .error e, none => return { corr := false, spec := true, cls := kind, detail := s!"model stops {stopStr e}" }
+  | .ok _, some ie => return { corr := false, spec := true, cls := kind, detail := s!"impl fails {ie}" }
+  | .ok (l, used), none =>
+    let m : Pop Float := { p with species := writeBack p.species l }
+    let d := jsonDiff "pop" (jPop m) (jPop a)
+    let corr := d.isNone && used == consumed
+    -- specification on the implementation's state
+    let nonneg0 := p.species.all (fun s => s.expectedOffspring ≥ 0)
+    let why : String :=
+      if kind == "deltaCoding" then
+        (if total a != (o.popSize : Int) then s!"delta coding: quotas total {total a}, population size {o.popSize}"
+         else if a.species.any (fun s => s.expectedOffspring < 0) then "negative quota"
+         else if a.species.any (fun s => match s.orgs.head? with | some t => t.superChampOffspring > s.expectedOffspring | none => false)
+           then "super-champion reservation above the quota" else "")
+      else
+        (if total a != total p then s!"stolen babies: quotas total {total a} afterwards, {total p} before"
+         else if nonneg0 && a.species.any (fun s => s.expectedOffspring < 0) then "negative quota"
+         else if nonneg0 && a.species.any (fun s => match s.orgs.head? with | some t => t.superChampOffspring > s.expectedOffspring | none => false)
+           then "super-champion reservation above the quota" else "")
+    let moved := (a.species.zip p.species).any (fun (x, y) => x.expectedOffspring != y.expectedOffspring)
+    return { corr := corr, spec := why == "", nontrivial := moved && p.species.length ≥ 2, cls := kind ++ (if moved then ":moved" else ":same"),
+             detail := (d.getD "") ++ (if used == consumed then "" else s!" randomness {used} vs {consumed}"),
+             props := [("C09", why == "", why, "quotaShift:" ++ kind), ("C02", why == "", why, "quotaShift:" ++ kind)] }
+
 def populationOps : List (String × Handler) :=
-  [("epoch", hEpoch), ("epochRand", hEpoch), ("spawn", hSpawn), ("speciate", hSpeciate)]
+  [("epoch", hEpoch), ("epochRand", hEpoch), ("spawn", hSpawn), ("speciate", hSpeciate), ("quotaShift", hQuotaShift)]
 
 end GoNeat.Driver
